@@ -22,7 +22,8 @@ def main():
     counter = [0]
     log = []
     names = ['remove', 'unlink', 'rename', 'rmdir', 'mkdir', 'makedirs',
-             'open', 'write', 'close', 'symlink', 'replace']
+             'open', 'write', 'close', 'symlink', 'replace', 'sendfile',
+             'copy_file_range', 'chmod', 'utime', 'link', 'truncate']
 
     def flush():
         if log_path:
@@ -63,7 +64,25 @@ def main():
 
     tracked = set()
     for nm in names:
-        setattr(os, nm, wrap(nm))
+        if hasattr(os, nm):
+            setattr(os, nm, wrap(nm))
+
+    def bopen(file, mode='r', *a, **k):
+        # builtins.open for writing (shutil's copy fallback uses it)
+        if isinstance(mode, str) and any(c in mode for c in 'wax+') and \
+                isinstance(file, (str, bytes, os.PathLike)):
+            counter[0] += 1
+            n = counter[0]
+            log.append([n, 'builtins.open', [repr(file)[:200], mode]])
+            if kill_at is not None and n == kill_at:
+                flush()
+                os._exit(99)
+            if n in fail or 'builtins.open' in fail_op:
+                en = fail.get(n, fail_op.get('builtins.open'))
+                log[-1].append('fail %d' % en)
+                raise OSError(en, os.strerror(en), file)
+        return real_open(file, mode, *a, **k)
+    builtins.open = bopen
     sys.argv = [script] + args
     if cfg.get('stdin') is not None:
         import io
